@@ -279,11 +279,12 @@ func (g *c15Gen) seq(depth int, out *[]c15Tok) {
 
 var _ = register(&propSpec{
 	ID:   "C15.doc",
-	Rule: "documents (optionally with included files) = constructs ({{ v }}, if/else, for/empty, with, set, include) separated by literal text with random runs of space/tab/CR/LF (also at BOF/EOF, between adjacent constructs, around embedded {# #}); every delimiter independently carries '-'; all four TrimBlocks x LStripBlocks settings; context values contain whitespace themselves. Oracle: byte-identical to the hand-stripped document compiled with all options off. Non-trivial: >= 1 whitespace run removed and >= 1 surviving; distinct by marked sources+options.",
+	Rule: "documents (optionally with included files, or a two- or three-level extends hierarchy in which every level contributes text) = constructs ({{ v }}, if/else, for/empty, with, set, include) separated by literal text with random runs of space/tab/CR/LF (also at BOF/EOF, between adjacent constructs, around embedded {# #}); every delimiter independently carries '-'; all four TrimBlocks x LStripBlocks settings; context values contain whitespace themselves. Oracle: byte-identical to the hand-stripped document compiled with all options off. Non-trivial: >= 1 whitespace run removed and >= 1 surviving; distinct by marked sources+options.",
 	Gen: func(t *rapid.T) any {
 		g := &c15Gen{t: t, files: map[string][]c15Tok{}}
 		var root []c15Tok
-		if drawInt(t, 0, 3, "hierarchy") == 0 {
+		switch drawInt(t, 0, 5, "hierarchy") {
+		case 0:
 			// a two-level hierarchy: the options and markers apply to the parent's document as well
 			var base []c15Tok
 			g.seq(2, &base)
@@ -295,7 +296,27 @@ var _ = register(&propSpec{
 			root = append(root, g.tag("tag", `extends "/base.tpl"`), g.tag("tag", "block main"))
 			g.seq(3, &root)
 			root = append(root, g.tag("tag", "endblock"))
-		} else {
+		case 1:
+			// three levels: the template in the middle contributes text of its own
+			var base, mid []c15Tok
+			g.seq(1, &base)
+			base = append(base, g.tag("tag", "block main"))
+			g.seq(1, &base)
+			base = append(base, g.tag("tag", "endblock"))
+			g.seq(1, &base)
+			g.files["/base.tpl"] = base
+			mid = append(mid, g.tag("tag", `extends "/base.tpl"`), g.tag("tag", "block main"))
+			g.seq(2, &mid)
+			mid = append(mid, g.tag("tag", "block inner"))
+			g.seq(1, &mid)
+			mid = append(mid, g.tag("tag", "endblock"))
+			g.seq(2, &mid)
+			mid = append(mid, g.tag("tag", "endblock"))
+			g.files["/mid.tpl"] = mid
+			root = append(root, g.tag("tag", `extends "/mid.tpl"`), g.tag("tag", "block inner"))
+			g.seq(2, &root)
+			root = append(root, g.tag("tag", "endblock"))
+		default:
 			g.seq(3, &root)
 		}
 		g.files["/root.tpl"] = root
